@@ -41,7 +41,7 @@ SPREAD = [0, 1, 2, 7, 100, 253, 254, 255]
 
 
 def budget(tier):
-    return 10000 if tier == "quick" else 256 * 5 + 60_000
+    return 10000 if tier == "quick" else 256 * 5 + 150_000
 
 
 def wall(tier):
